@@ -1,8 +1,15 @@
+mod agg;
 mod c12;
 mod core;
 mod dec;
+mod fixed;
 mod ints;
+mod kleene;
+mod native;
+mod nulls;
 mod refm;
+mod replay;
+mod temporal;
 unsafe extern "C" {
     fn mallopt(param: i32, value: i32) -> i32;
 }
